@@ -2529,8 +2529,12 @@ def oracle_parts(c, o):
     expected = {}
     for k, i in enumerate(c["train"]):
         expected.setdefault(i, [p["rows"][k] for p in parts])
+    outside = set()  # non-training rows a spline with the default extrapolation='raise' legitimately refuses
     for i, r in enumerate(o["ref"]):
         if "error" in r:
+            if i not in expected and "Some field values ext" in str(r.get("msg", "")):
+                outside.add(i)
+                continue
             return f"the one-row frame of pool row {i} raised {r['error']}: {r.get('msg', '')}"
         if i in expected:
             for j, (rp, ex) in enumerate(zip(r["parts"], expected[i])):
@@ -2541,6 +2545,8 @@ def oracle_parts(c, o):
             expected[i] = [rp["row"] for rp in r["parts"]]
     for k, (fu, rp) in enumerate(zip(c["followups"], o["replays"])):
         what = f"follow-up {k} on pool rows {fu['rows']} ({'joint specs' if rp['part'] is None else 'spec of part ' + str(rp['part']) + ' alone'}{', pickled' if fu['pickle'] else ''})"
+        if outside & set(fu["rows"]):
+            continue  # contains a row outside the recorded bounds: the refusal (or not) is C12's subject
         if "error" in rp:
             return f"{what} raised {rp['error']}: {rp.get('msg', '')[:120]}"
         idx = list(range(len(rp["parts"]))) if rp["part"] is None else [rp["part"]]
